@@ -53,7 +53,7 @@ static int compare_double(const void* a, const void* b) {
 static int compare_bytes(const void* a, size_t a_len, const void* b, size_t b_len) {
     size_t min_len = a_len < b_len ? a_len : b_len;
     int cmp = memcmp(a, b, min_len);
-    if (cmp != 0) return cmp;
+    if (cmp != 0) return cmp < 0 ? -1 : 1;  /* sign only: 2 is COMPARE_UNORDERED */
     return (a_len > b_len) - (a_len < b_len);
 }
 
